@@ -107,12 +107,12 @@ def table_phase(chk, kinds, nv, maps, lam_none_bind=False, schema_only=False, ta
     return r, table, vals, tc, mism
 
 
-def faulty_selftest(chk, group, nv, maps, cap, lam_none_bind=False):
+def faulty_selftest(chk, group, nv, maps, cap, lam_none_bind=False, faults=("stale_params", "key_ignores_struct", "key_ignores_mapflag")):
     """the invariants must reject the three classic design errors (non-vacuity of the TLC side)"""
     out = {}
     for faulty, expect in (("stale_params", ("Transparent", "NoStaleValues")), ("key_ignores_struct", ("Transparent", "KeysSound")),
                            ("key_ignores_mapflag", ("Transparent", "KeysSound", "OnlyDocumentedError"))):
-        if faulty == "key_ignores_mapflag" and len(maps) < 2:
+        if faulty not in faults or (faulty == "key_ignores_mapflag" and len(maps) < 2):
             continue
         cfgt = tlc.cfg(constants=sd.consts(group=group, nv=nv, maps=maps, cap=cap, depth=4, faulty=faulty, lam_none_bind=lam_none_bind),
                        invariants=INVS,
